@@ -32,7 +32,7 @@ CHECKS = {
  "C08": dict(
    engine="E1-SimMPI",
    category="exploration",
-   text="Seeded search over (multi-rank program, message/part schedule, legal MPI perturbation) triples: every run executes the real find_distributed_partition / verify / number_distributed_tags / execute_distributed_partition on 1-4 simulated ranks under a scheduler that owns every interleaving (delivery order and delay, Waitsome subsets and order, eager vs rendezvous sends with late buffer reads, poisoned receive buffers, stalled ranks, PCT priorities, back-to-back re-execution). Invariants during the run (no exception, deadlock, livelock, poison read, size mismatch) and over the history (outputs equal the recipe-level NumPy evaluation of the global data flow exactly; exactly-once message accounting; bounded liveness). Plus a bounded exhaustive stratum: for small programs (<=3 ranks, <=3 messages) ALL schedules (delivery / send-completion / wake-up orders, every Waitsome subset, eager and rendezvous) are enumerated depth-first. Sampling, not proof, beyond that stratum: a clean batch is evidence for the sampled space (ranks<=4, comm ops<=6).",
+   text="Seeded search over (multi-rank program, message/part schedule, legal MPI perturbation) triples: every run executes the real find_distributed_partition / verify / number_distributed_tags / execute_distributed_partition on 1-4 simulated ranks under a scheduler that owns every interleaving (delivery order and delay, Waitsome subsets and order, eager vs rendezvous sends with late buffer reads, poisoned receive buffers, stalled ranks, PCT priorities, back-to-back re-execution). Invariants during the run (no exception, deadlock, livelock, poison read, size mismatch) and over the history (outputs equal the recipe-level NumPy evaluation of the global data flow exactly; exactly-once message accounting; bounded liveness). About 2500 runs per quick run use PROCESS ACTORS (one child interpreter per rank with its own hash seed/heap, a proxy thread per rank inside the same kernel), because ranks exchange pickles. Plus a bounded exhaustive stratum: for small programs (<=3 ranks, <=3 messages) ALL schedules (delivery / send-completion / wake-up orders, every Waitsome subset, eager and rendezvous) are enumerated depth-first. Sampling, not proof, beyond that stratum: a clean batch is evidence for the sampled space (ranks<=4, comm ops<=6).",
    design_ref="DESIGN.md sections 2, 4, 5 (C08), 10",
    note="Trusted: the SimMPI kernel implements MPI matching/completion semantics for the subset pytato uses (Isend/Irecv/Waitsome/Wait, pickle-based collectives); the recipe-level NumPy oracle and RefEval (cross-checked against each other on 1 run in 8); numerical execution of a part is RefEval on the part's expressions, not the compiled kernel (generate_loopy is run for its exceptions on sampled runs, with a communication-free control compile to tell partition-induced failures from code generation's own; on a small sample the real kernels are also executed through loopy's C target + gcc next to the stub, as evidence only).",
    technique="deterministic simulation: seeded schedule + perturbation search on a simulated MPI (plus exhaustive schedule enumeration for small instances), reference-model oracle, minimised replay files"),
